@@ -102,7 +102,7 @@ CHECKS = {
              "the harness process and is observed as a crash. The abort-on-double-panic rule itself is Rust runtime behaviour (modelled, not proved). "
              "Topologies include mocks built by cleanup code during unwinding, no_verify_in_drop originals, and a value chain holding a value whose Drop makes a failing (swallowed) call while the thread unwinds. "
              "Message part: producing the message must not panic either - every error kind with 600-700 byte ASCII / non-ASCII argument renderings and pattern texts; an abort is seen as a crashed case. "
-             "User code that panics inside an argument's Debug impl while the runtime renders the call for a mock error is modelled and proved to be the only panic, recording nothing (six error kinds in the matrix).",
+             "User code that panics inside an argument's Debug impl while the runtime renders the call for a mock error is modelled (plain, observed, scope-owned and swallowed calls) and proved to be the only panic, recording nothing (six error kinds in the matrix).",
         design_ref="DESIGN.md section 7, C11",
         technique="Coq proof (unwinding => silent drop, for all states) + exhaustive crash-matrix co-execution"),
     "C10": dict(
